@@ -977,6 +977,64 @@ def g1_fresh_rows(ctx: Ctx):
         ctx.check(len(ks) == 1, OPS, user, 'empty', 'empty() allocates through _empty', f'calls {[norm(k) for k in ks]}')
 
 
+def p2_sum_adds_every_element(ctx: Ctx):
+    """`sum(xs)` is `xs[0] + xs[1] + ... ` under the active context: every element after the first goes through the
+    rounded add -- adding a zero is not the identity when the accumulator is not representable in the context (the add
+    is what rounds it), and -0 + +0 is +0.  In `_eval_sum` the accumulation loop runs over every element after the first,
+    and on every path through its body that ends an iteration the accumulator has been replaced by
+    `ops.add(accum, x, ctx=ctx)`: the only other ways out of the body are refusals (`raise`)."""
+    q = '_eval_sum'
+    fn = ctx.fn(BYTE, q)
+    loops = [s for s in ast.walk(fn) if isinstance(s, ast.For)]
+    if len(loops) != 1:
+        raise ShapeError(f'_eval_sum: {len(loops)} loops')
+    loop = loops[0]
+    params = [a.arg for a in fn.args.args]
+    ctx.check(norm(loop.iter) == f'{params[0]}[1:]' and isinstance(loop.target, ast.Name) and not loop.orelse, BYTE, loop, q,
+              'the accumulation loop runs over every element after the first', f'the loop is over `{norm(loop.iter)}`')
+    var = loop.target.id if isinstance(loop.target, ast.Name) else '?'
+
+    def is_add(st) -> Optional[str]:
+        if isinstance(st, ast.Assign) and len(st.targets) == 1 and isinstance(st.targets[0], ast.Name) and isinstance(st.value, ast.Call) \
+                and (call_name(st.value) or '').endswith('add') and [norm(a) for a in st.value.args] == [st.targets[0].id, var] \
+                and {k.arg: norm(k.value) for k in st.value.keywords} == {'ctx': params[1]}:
+            return st.targets[0].id
+        return None
+
+    # a walk over the paths of the body: True when every path that falls off the end (or continues) has added
+    def walk(stmts, added: bool) -> tuple[bool, Optional[ast.AST]]:
+        """-> (added on every path that reaches the end of `stmts`, first statement that ends an iteration without the add)"""
+        for st in stmts:
+            if isinstance(st, ast.Raise):
+                return True, None                     # a refusal: no result
+            if isinstance(st, (ast.Continue, ast.Break, ast.Return)):
+                return True, (None if added and not isinstance(st, (ast.Break, ast.Return)) else st)
+            if is_add(st):
+                added = True
+            elif isinstance(st, ast.If):
+                a1, b1 = walk(st.body, added)
+                a2, b2 = walk(st.orelse, added)
+                if b1 is not None or b2 is not None:
+                    return False, b1 or b2
+                # a branch that ends in raise / continue does not fall through
+                ends1 = bool(st.body) and isinstance(st.body[-1], (ast.Raise, ast.Continue))
+                ends2 = bool(st.orelse) and isinstance(st.orelse[-1], (ast.Raise, ast.Continue))
+                added = (a1 or ends1) and (a2 or ends2) if not (ends1 and ends2) else True
+                if ends1 and ends2:
+                    return True, None
+            elif isinstance(st, (ast.For, ast.While, ast.Try, ast.With, ast.Match)):
+                raise ShapeError(f'_eval_sum: a `{type(st).__name__}` in the accumulation loop')
+        return added, None
+    done, esc = walk(loop.body, False)
+    ctx.check(done and esc is None, BYTE, esc or loop, q, 'every element after the first is added to the accumulator under the context (`accum = ops.add(accum, x, ctx=ctx)` on every path through the loop body)',
+              (f'`{norm(esc)}` at line {esc.lineno} ends an iteration without the add' if esc is not None else 'a path through the loop body falls off its end without the add')
+              + ': under `with fp.FP32`, sum([a, 0.0]) for a binary64 a = 0.1 returns 0.1 unrounded instead of 0.10000000149011612')
+    accs = {is_add(st) for st in ast.walk(loop) if isinstance(st, ast.Assign)} - {None}
+    rets = [r for r in walk_no_nested(fn) if isinstance(r, ast.Return) and r.value is not None and r.lineno > loop.lineno]
+    ctx.check(len(accs) == 1 and rets and all(norm(r.value) in accs for r in rets), BYTE, rets[0] if rets else loop, q, 'the accumulator is what sum returns',
+              f'returns {[norm(r.value) for r in rets]}, accumulates into {sorted(accs)}')
+
+
 RULES = [
     Rule('C04.G1', 'empty(d1, ..., dk) gives every row of every level cells of its own', g1_fresh_rows, 2, 'G'),
     Rule('C04.T1', 'operator identity: parser tables o interpreter tables = identity on operation names (alias table stated)', t1_operator_identity, 120, 'T'),
@@ -990,6 +1048,7 @@ RULES = [
     Rule('C04.T6', 'arithmetic under `with fp.REAL` follows the IEEE rules for NaN, infinities and zeros (= C02.T2, the exact engine)', lambda ctx: __import__('sa.props.engine_rules', fromlist=['t2_real_specials']).t2_real_specials(ctx), 48, 'T'),
     Rule('C04.T5', 'a negated operand is the operation Neg; the sign folds into the literal only for a zero and an integer', t5_negated_literals, 12, 'T'),
     Rule('C04.F2', 'FPy-to-FPy calls share arguments; nothing rounds on entry; boundary conversion only when convert', f2_call_boundary, 6, 'F'),
+    Rule('C04.P2', 'sum: every element after the first is added to the accumulator under the context, on every path through the loop', p2_sum_adds_every_element, 3, 'P'),
     Rule('C04.F3', 'strict helpers are used for index, slice, zip, len, any/all, min/max, ==, orderings, range', f3_strict_helpers, 15, 'F'),
 ]
 
@@ -1007,6 +1066,11 @@ MUTANTS = [
            'the last pair is tested first: its operand is read before it is bound'),
     Mutant('zip-emitted-by-its-bare-name', BYTE, "                func = pyast.Name(id='__fpy_list', ctx=pyast.Load(), **attrs)", "                func = pyast.Name(id='list', ctx=pyast.Load(), **attrs)", 'C04.F4',
            'finding F106 before its repair: a program variable named list breaks every zip in the function'),
+    Mutant('sum-skips-zero-elements', BYTE, "            accum = ops.add(accum, x, ctx=ctx)\n        return accum", "            if x == 0:\n                continue\n            accum = ops.add(accum, x, ctx=ctx)\n        return accum", 'C04.P2',
+           'seeded change C04g: under with fp.FP32, sum([0.1, 0.0]) returns the binary64 0.1 unrounded'),
+    Mutant('sum-adds-non-zero-elements-only', BYTE, "            accum = ops.add(accum, x, ctx=ctx)\n        return accum", "            if x != 0:\n                accum = ops.add(accum, x, ctx=ctx)\n        return accum", 'C04.P2'),
+    Mutant('sum-add-in-both-arms', BYTE, "            accum = ops.add(accum, x, ctx=ctx)\n        return accum", "            if x == 0:\n                accum = ops.add(accum, x, ctx=ctx)\n            else:\n                accum = ops.add(accum, x, ctx=ctx)\n        return accum", 'C04.P2',
+           'the add on both arms of a test: behaviour unchanged, the rule stays silent', expect='silent'),
     Mutant('exact-sum-hands-back-the-other-operand-of-a-zero', 'fpy2/number/engine/real.py', "        else:\n            # both are finite\n            match x, y:\n                case Float(), Float():\n                    r = x.as_real() + y.as_real()",
            "        elif _is_zero(y):\n            return x\n        elif _is_zero(x):\n            return y\n        else:\n            # both are finite\n            match x, y:\n                case Float(), Float():\n                    r = x.as_real() + y.as_real()", 'C04.T6',
            'seeded change C04e: with fp.REAL: y = x + 0 keeps the -0 of x, and 1 / y is -inf'),
